@@ -491,6 +491,33 @@ def run(prog, ctx):
     ctx.check(ok, "C19.D6", R.key_of(isc, "out-of-range-removal"), isc.loc(rms[0]) if rms else isc.loc(),
               "every returned data set had its samples below/above the learned range removed",
               "_internal_scaling does not remove both the samples below and above the learned range from the data it returns on every path" + quant_msg)
+    # the removal thresholds lie strictly OUTSIDE the range the learning data was scaled to: a sample on the learned extreme is mapped
+    # to the end of the range only up to rounding ((max - min) * (0.99 / (max - min)) + 0.005 may be 0.9950000000000001); with thresholds
+    # equal to the range ends it is removed as "out of bounds" instead of being classified
+    cl = prog.cls(CLS)
+    ranges = []
+    for f in cl.methods.values():
+        for call_ in R.calls_in(f.node, method="scale_range"):
+            a0 = call_.args[0] if call_.args else None
+            if isinstance(a0, (ast.Tuple, ast.List)) and len(a0.elts) == 2 and all(isinstance(e, ast.Constant) and isinstance(e.value, (int, float)) for e in a0.elts):
+                ranges.append((float(a0.elts[0].value), float(a0.elts[1].value)))
+    if ok and ranges:
+        lo_r, hi_r = min(r[0] for r in ranges), max(r[1] for r in ranges)
+
+        def num(t):
+            try:
+                return float(t[1]) if t[0] == "c" else None
+            except (TypeError, ValueError):
+                return None
+        lo_c = [num(x[3]) for x in lows if num(x[3]) is not None]
+        hi_c = [num(x[2]) for x in highs if num(x[2]) is not None]
+        if lo_c and hi_c:
+            okt = max(lo_c) < lo_r and min(hi_c) > hi_r
+            ctx.check(okt, "C19.D6", R.key_of(isc, "thresholds-outside-learning-range"), isc.loc(rms[0]),
+                      "the removal thresholds (%s, %s) lie strictly outside the learning range (%s, %s)" % (max(lo_c), min(hi_c), lo_r, hi_r),
+                      "the removal thresholds (%s, %s) do not lie strictly outside the range (%s, %s) the learning data was scaled to: a sample on "
+                      "the learned extreme, which the re-applied scaling maps to the range end only up to rounding, is removed instead of classified"
+                      % (max(lo_c), min(hi_c), lo_r, hi_r))
 
 
 def check_unlabelled_set_aside(prog, ctx):
